@@ -722,6 +722,11 @@ class Sum(Box):
         unit = Sum([], self.dom, self.cod)
         return self.upgrade(sum([f.subs(*args) for f in self.terms], unit))
 
+    def lambdify(self, *symbols, **kwargs):
+        unit = Sum([], self.dom, self.cod)
+        return lambda *xs: self.upgrade(sum(
+            [f.lambdify(*symbols, **kwargs)(*xs) for f in self.terms], unit))
+
 
 class Bubble(Box):
     """ A unary operator on homsets. """
